@@ -141,6 +141,27 @@ pub fn replay(run: &mut Runner, path: &str, seed: u64) {
     }
 }
 
+/// C04 at the level of the event builder: every arrival order x fault of the reassembly model (MC_Mcp's
+/// exported behaviours {n, rx, ...}) as the chunk banks of one event, the TRG bank at a random place.  The
+/// requirement (Trace_MainEvent) is a function of the bag of banks, so every order must agree with it.
+pub fn from_mcp(run: &mut Runner, path: &str, seed: u64, stride: usize) {
+    let mut rng = rng_from(seed, 14);
+    for (bi, beh) in read_ndjson(path).into_iter().enumerate() {
+        if bi % stride != 0 {
+            continue;
+        }
+        let n = beh["n"].as_u64().unwrap() as usize;
+        let rx = beh["rx"].as_array().unwrap().clone();
+        let mut banks: Vec<BankB> = crate::mcp::concretize_rx(&mut rng, &rx, n)
+            .into_iter()
+            .map(|(board, bytes)| BankB::new(&format!("PC{board}"), bytes))
+            .collect();
+        let at = rng.gen_range(0..=banks.len());
+        banks.insert(at, trg_bank_b(1000 + bi as u32));
+        emit_event(run, SIM, "mcp", format!("m{bi}"), banks, json!("?"), Detail::Slots);
+    }
+}
+
 fn maps_for_cached(run: u32) -> Maps {
     use std::collections::HashMap;
     use std::sync::Mutex;
@@ -178,7 +199,15 @@ pub fn random_banks<R: Rng>(rng: &mut R, ci: u64) -> (u32, Vec<BankB>, &'static 
                 1 => dw + 1,
                 _ => dw + rng.gen_range(2..40),
             };
-            banks.push(wire_bank(&fab, w, wire_wave(w, n)));
+            let mut wave = wire_wave(w, n);
+            // rail and near-rail samples behind the baseline window (simulation run: values are compared exactly)
+            if r == SIM && n > 70 && rng.gen_bool(0.35) {
+                for _ in 0..rng.gen_range(1..4) {
+                    let k = rng.gen_range(64..n);
+                    wave[k] = *[i16::MIN, i16::MAX, -30000, 30000, -29769, -29768, -29767, -32767].choose(rng).unwrap();
+                }
+            }
+            banks.push(wire_bank(&fab, w, wave));
         }
         let ng = rng.gen_range(0..=2);
         let mut keys: Vec<(usize, usize)> = fab.pad.keys().copied().collect();
@@ -191,7 +220,14 @@ pub fn random_banks<R: Rng>(rng: &mut R, ci: u64) -> (u32, Vec<BankB>, &'static 
                 _ => dp + rng.gen_range(1..12),
             };
             // the chosen pad plus up to two more channels of the same chip
-            let mut chans = vec![(k, pad_wave(col, row, req))];
+            let mut first = pad_wave(col, row, req);
+            if r == SIM && req > 0 && rng.gen_bool(0.35) {
+                for _ in 0..rng.gen_range(1..4) {
+                    let k = rng.gen_range(0..req);
+                    first[k] = *[i16::MIN, i16::MAX, -31044, -31043, -31042, 32000, -32767].choose(rng).unwrap();
+                }
+            }
+            let mut chans = vec![(k, first)];
             for _ in 0..rng.gen_range(0..3) {
                 let k2 = rng.gen_range(1..=72u16);
                 if chans.iter().all(|c| c.0 != k2) {
